@@ -187,6 +187,7 @@ type c01World struct {
 	phaseOf map[int]int // publication id -> script phase of its last delivery
 	deliv   []string    // Coq frames of the messages handed to the node, in delivery order
 	delivK  []string    // the same as comparable keys (pub:<id> | join | leave)
+	cwEnd   int         // items left in the channel's batching writer when the schedule ended
 }
 
 func (w *c01World) fail(format string, a ...any) {
@@ -278,6 +279,23 @@ func (w *c01World) opFlush() {
 	if n > 0 {
 		w.emitL("LFlush")
 	}
+}
+
+// items currently buffered in the channel's batching writer
+func (w *c01World) cwLen() int {
+	pcw := w.client.perChannelWriter
+	if pcw == nil {
+		return 0
+	}
+	pcw.mu.RLock()
+	cw := pcw.writers[c01Ch]
+	pcw.mu.RUnlock()
+	if cw == nil {
+		return 0
+	}
+	cw.mu.Lock()
+	defer cw.mu.Unlock()
+	return len(cw.buffer) + len(cw.latestPubs)
 }
 
 func (w *c01World) epochIndex(s string) uint64 {
@@ -798,6 +816,7 @@ func (w *c01World) run() {
 		w.emitL("LCloseCleanup")
 	}
 	w.phase(8)
+	w.cwEnd = w.cwLen()
 	// drain the writer
 	if !w.tr.isClosed() {
 		_ = w.client.Send([]byte(`"c01-end"`))
@@ -946,7 +965,7 @@ func (w *c01World) caseTerm(frames []c01Frame) string {
 		variant = "VServer"
 	}
 	return vApp("mkCase", variant, vBool(w.sc.Pos), vBool(w.sc.Pos && w.sc.Rec), vN(w.since), vN(w.sinceEp), vBool(w.sc.JL), vBool(w.sc.Batch),
-		vList(w.sched), c01CoqFrames(frames), c01CoqPubs(w.glog), vList(w.deliv))
+		vList(w.sched), c01CoqFrames(frames), c01CoqPubs(w.glog), vN(uint64(w.cwEnd)), vList(w.deliv))
 }
 
 // ---- classification helpers (for the evidence histogram and finding keys) ----
